@@ -6,6 +6,8 @@ Layer B: chains of 6..12 sites spaced 0.8 L that cross several chunks along RA, 
 Layer S: serpentines and combs (2-4 parallel rows joined at alternating / equal ends, one bridge removed in turn) that
          force multi-level merges of provisional per-chunk groups, in six input orders.
 Layer P: all 720 input orders of fixed 6-point configurations that span chunks, the RA seam and the pole.
+Layer F: 2-3 well separated fields (different chunks), each a 3-4 chain in every input permutation (forcing provisional
+         groups that are created and then merged) plus 1-2 isolated sites listed last / first / in the middle; both field orders.
 Layer M: linking lengths 1 mas, 10 mas, 0.1 arcsec, 1 arcsec: every ordered tuple (exact duplicates included) over six
          compact sites with separations 0, 0.5, 0.8, 1.3, 2.5 x L at five declinations, both poles and across RA 0/360.
 Oracle: connected components of {sep <= L} by union-find on brute-force separations (_sphere.sep_deg).
@@ -34,7 +36,9 @@ RULE = ('Layer A: per (scene, linking length L, chunk size) all n^2+..+n^5 order
         '(n=7 thorough, 6 quick) placed at multiples of 0.37 L. Layer B: per (scene, direction, L, chunk) chains of N sites spaced '
         '0.8 L with no cut or one link widened to 1.3 L, in all N rotations x 2 directions of the input order. Layer S: 2-4 rows of '
         '6 or 10 sites joined as serpentine/comb (4 patterns), each bridge removed in turn, rows along RA or Dec, 6 input orders. Layer P: all 720 '
-        'orders of two 6-point configurations. Layer M: L in {1 mas, 10 mas, 0.1 arcsec, 1 arcsec} x 7 compact scenes: all ordered '
+        'orders of two 6-point configurations. Layer F: 2-3 fields 40 deg apart (4 cell alignments), each a chain of 3-4 sites in all '
+        'permutations (product over two fields) + 1-2 isolated sites placed last/first/middle, both field orders. '
+        'Layer M: L in {1 mas, 10 mas, 0.1 arcsec, 1 arcsec} x 7 compact scenes: all ordered '
         'tuples with repetition (2-3 sites quick, 2-5 thorough) over 6 sites whose separations are 0/0.5/0.8/1.3/2.5 x L. A case is non-trivial when at least two distinct positions are within the linking '
         'length of each other (a group that has to be found); distinct = distinct (coordinates in input order, L, chunk size).')
 ASSUMPTIONS = ['a case is do-not-care when the components of {sep <= L(1-1e-9)-1e-12} and {sep <= L(1+1e-9)+1e-12} differ',
@@ -217,6 +221,12 @@ def tasks(tier):
             for cf in ([None, 4.0, 8.0, 20.0] if T else [None, 4.5]):
                 t.append({'layer': 'M', 'scene': scene, 'L': L, 'cf': cf,
                           'lens': ([2, 3, 4, 5] if cf in (None, 4.0) else [2, 3, 4]) if T else [2, 3]})
+    for dec0 in ((10.0, 50.0) if T else (10.0,)):
+        for L, cfs in (((0.01, [None, 4.0, 8.0]), (1.0, [None, 4.5, 8.0]), (1.0 / 3600.0, [None])) if T
+                       else ((0.01, [None]), (1.0, [4.5]))):
+            for cf in cfs:
+                for shift in ((0, 1, 2, 3) if T else (0, 2)):
+                    t.append({'layer': 'F', 'dec0': dec0, 'L': L, 'cf': cf, 'shift': shift, 'full': bool(T)})
     for cfgname in ('seam-chain', 'pole-ring'):
         for L in (LENGTHS if T else [0.1, 5.0]):
             for cf in ([None, 4.0, 8.0] if T else [None]):
@@ -439,7 +449,62 @@ def _run_M(acc, task):
     acc.sample(make_case(ra[:3], dec[:3], L, chunk))
 
 
+# ------------------------------------------------------------------ layer F: merged chain + isolated points, in several chunks
+def field_points(ra_c, dec0, L, clen, nlon):
+    """A chain of `clen` sites spaced 0.8 L along RA and `nlon` isolated sites 1.5 L above / below its middle."""
+    c = math.cos(math.radians(dec0))
+    chain_pts = [((ra_c + (k - 0.5 * (clen - 1)) * 0.8 * L / c) % 360.0, dec0) for k in range(clen)]
+    x = 0.0 if clen % 2 == 0 else 0.4 * L
+    lon = [((ra_c + x / c) % 360.0, dec0 + sg * 1.5 * L) for sg in (1.0, -1.0)[:nlon]]
+    return chain_pts, lon
+
+
+def _field_orders(clen, nfields, full):
+    """Chain permutations per field: the full product for two fields (and for three 3-chains), else the diagonal."""
+    perms = list(itertools.permutations(range(clen)))
+    if nfields == 2 and (full or clen == 4):
+        return list(itertools.product(perms, repeat=2))
+    if nfields == 3 and clen == 3 and full:
+        return list(itertools.product(perms, repeat=3))
+    return [tuple([pm] * nfields) for pm in perms]
+
+
+def _run_F(acc, task):
+    dec0, L, cf, shift, full = task['dec0'], task['L'], task['cf'], task['shift'], task['full']
+    chunk = _chunk(L, cf)
+    m = S.effective_chunk(L, chunk, True)
+    cfg = ('F', dec0, L, cf, shift)
+    c0 = math.cos(math.radians(dec0))
+    last = None
+    for nfields in (2, 3):
+        centres = [100.0 + f * (40.0 + shift * 0.25 * m / c0) for f in range(nfields)]
+        for clen in (4, 3):
+            for nlon in ((1, 2) if full else (1,)):
+                fields = [field_points(rc, dec0, L, clen, nlon) for rc in centres]
+                allp = [p for ch, lo in fields for p in ch + lo]
+                cells = S.cell_count(np.array([p[0] for p in allp]), np.array([p[1] for p in allp]), m)
+                combos = _field_orders(clen, nfields, full)
+                if cells > GUARD:
+                    acc.skip('resource-guard: fields dec=%g L=%g chunk=%s -> %d cells' % (dec0, L, chunk, cells), len(combos) * 6)
+                    continue
+                for combo in combos:
+                    for pos in ('last', 'first', 'middle'):
+                        blocks = []
+                        for f in range(nfields):
+                            ch = [fields[f][0][k] for k in combo[f]]
+                            lo = fields[f][1]
+                            blocks.append(ch + lo if pos == 'last' else lo + ch if pos == 'first' else ch[:2] + lo + ch[2:])
+                        for rev in (0, 1):
+                            pts = [p for b in (blocks[::-1] if rev else blocks) for p in b]
+                            ra = np.array([p[0] for p in pts], dtype=float)
+                            dec = np.array([p[1] for p in pts], dtype=float)
+                            _one(acc, cfg, (nfields, clen, nlon, combo, pos, rev), ra, dec, L, chunk)
+                            last = (ra, dec)
+    if last is not None:
+        acc.sample(make_case(last[0], last[1], L, chunk))
+
+
 def run_task(task):
     acc = Acc()
-    {'A': _run_A, 'B': _run_B, 'P': _run_P, 'S': _run_S, 'M': _run_M}[task['layer']](acc, task)
+    {'A': _run_A, 'B': _run_B, 'P': _run_P, 'S': _run_S, 'M': _run_M, 'F': _run_F}[task['layer']](acc, task)
     return acc
